@@ -15,7 +15,8 @@ KINDS = {
     "C05": {"over_capacity", "double_owner", "inuse_over_capacity", "inuse_negative", "inuse_not_zero_at_idle",
             "waiters_not_zero_at_idle", "leaked"},
     "C08": {"batch_too_big", "batch_commit_order", "commit_before_send_return", "batch_commit_twice",
-            "resend_after_done", "added_not_committed_once"},
+            "resend_after_done", "added_not_committed_once", "batch_bytes_exceeded", "batch_stale", "parent_sent",
+            "not_idle", "unaccounted"},       # an added event that is never committed
     "C09": {"payload_of_other_event", "pause_too_short", "gave_up_early", "gave_up_unlimited", "onerror_twice", "failed_twice", "fail_without_dq",
             "commit_of_dead_queued", "exhausted_not_dq_only", "exhausted_not_main_once",
             "commit_before_send_return", "not_idle", "unaccounted"},     # an event of an exhausted batch that nobody ever commits
@@ -137,6 +138,21 @@ def detach_scenarios(ctx, n, start_run):
         lines = [dict(id=1, src=1, stream="a", cls="H", wait_ms=0)] + [dict(id=i + 2, src=1, stream="a", **t) for i, t in enumerate(tail)]
         out.append(base(run, name="timeout-then-detach-%d" % run, mode="random", cap=8, workers=ctx.rng.choice([1, 2]), batch=ctx.rng.choice([2, 3]),
                         flush_ms=ctx.rng.choice([15, 40]), timeout_ms=ctx.rng.choice([5, 20]), lines=lines, jitter=False, single=ctx.rng.random() < 0.3))
+    return out
+
+
+def directed_scenarios(start_run):
+    """fixed schedules that every check of the family runs: a batch that is NOT the first one is given up to the dead queue
+    between two batches that succeed (the given-up batch object is recycled; later batches must still be committed)"""
+    out = []
+    for k, nev in enumerate((3, 4)):
+        lines = [dict(id=i + 1, src=1, stream="a", cls="P") for i in range(nev)]
+        steps = [["in", 1, i + 1] for i in range(nev)]
+        for i in range(nev):
+            steps += [["do", i + 1, 0], ["do", i + 1, 1]]
+        steps += [["send", 1, 1], ["send", 2, 0], ["send", 2, 0]] + [["send", i + 1, 1] for i in range(2, nev)] + [["send", 2, 1]]
+        out.append(scripted(start_run + k, "directed-giveup-of-second-batch-%d" % nev, lines, steps,
+                            {"Capacity": 8, "NWorkers": 2, "BatchCount": 1, "Retry": 0, "HasDQ": True}))
     return out
 
 
